@@ -3,6 +3,7 @@ package props
 import (
 	"fmt"
 	"sort"
+	"strings"
 	"sync"
 	"sync/atomic"
 	"time"
@@ -54,6 +55,16 @@ type stampDb struct {
 	anyOfPar0, onlyPar1 func(tx *bbolt.Tx, forward bool) ast.SetCursor
 	// role lists handed to FindMatching / FindMatchingAnyOf by every reader (one slice each, shared like a constant)
 	allOfRoles, anyOfRoles []string
+	// ids returned by queries, kept by the caller beyond its read transaction (with copies made while it was open)
+	keptMu sync.Mutex
+	kept   []keptIds
+}
+
+type keptIds struct {
+	query   string
+	ids     []string // as returned by the store
+	copies  []string // strings.Clone of each, made inside the transaction
+	commits int64    // commits seen when they were returned
 }
 
 func openStamp(path string) (*stampDb, error) {
@@ -144,6 +155,24 @@ func (s *stampDb) verifyTx(tx *bbolt.Tx, deep bool) (int64, []string) {
 			bad = append(bad, fmt.Sprintf(format, a...))
 		}
 	}
+	// what earlier read transactions were handed stays what it was, however many commits have recycled pages since
+	s.keptMu.Lock()
+	now := s.commits.Load()
+	rest := s.kept[:0]
+	for _, k := range s.kept {
+		if k.commits+3 > now {
+			rest = append(rest, k)
+			continue
+		}
+		for i := range k.ids {
+			if k.ids[i] != k.copies[i] {
+				addf("ids returned by %q changed after the read transaction ended: %q, were %q", k.query, k.ids, k.copies)
+				break
+			}
+		}
+	}
+	s.kept = rest
+	s.keptMu.Unlock()
 	var allIds []string
 	for i := 0; i < stampCells; i++ {
 		id := cellId(i)
@@ -219,6 +248,16 @@ func (s *stampDb) verifyTx(tx *bbolt.Tx, deep bool) (int64, []string) {
 			ids, _, err := cells.Store.QueryIds(tx, q.q)
 			if err != nil || fmt.Sprint(ids) != fmt.Sprint(q.exp) {
 				addf("query %q = %q err=%v, expected %q", q.q, ids, err, q.exp)
+			} else if len(ids) > 0 {
+				k := keptIds{query: q.q, ids: ids, commits: s.commits.Load()}
+				for _, id := range ids {
+					k.copies = append(k.copies, strings.Clone(id))
+				}
+				s.keptMu.Lock()
+				if len(s.kept) < 256 {
+					s.kept = append(s.kept, k)
+				}
+				s.keptMu.Unlock()
 			}
 		}
 		// the shared providers, asked inside this transaction, answer for this transaction's state
